@@ -39,6 +39,11 @@ impl MWorld {
         let r: em::EpochResponse = self.app.wrap().query_wasm_smart(&self.mgr, &em::QueryMsg::CurrentEpoch {}).unwrap();
         (r.epoch.id, r.epoch.start_time.nanos())
     }
+    /// QueryMsg::Epoch { id }: (id, start) as reported, or the failure
+    fn epoch_by_id(&self, id: u64) -> Outcome<(u64, u64)> {
+        run_catch(|| self.app.wrap().query_wasm_smart::<em::EpochResponse>(&self.mgr, &em::QueryMsg::Epoch { id }).map(|r| (r.epoch.id, r.epoch.start_time.nanos())),
+                  |e| classify_text(&format!("{}", e)))
+    }
     fn log(&self, i: usize) -> hook_recorder::Log { self.app.wrap().query_wasm_smart(&self.hooks[i], &hook_recorder::Query::Log {}).unwrap() }
     fn set_fail(&mut self, i: usize, fail: bool) {
         self.app.execute_contract(Addr::unchecked("donor"), self.hooks[i].clone(), &hook_recorder::Exec::SetFail { fail }, &[]).unwrap();
@@ -53,6 +58,8 @@ fn run_manager_case(out: &mut Out, id0: u64, start0: u64, duration: u64, t0: u64
     let mut registered: Vec<usize> = vec![];
     let mut created = 0u64;
     let mut kinds: std::collections::BTreeSet<&'static str> = Default::default();
+    // every epoch the manager has been in so far (the initial one and each one created), as CurrentEpoch reported it
+    let mut seen: Vec<(u64, u64)> = vec![w.cur()];
     for (t, e) in evs {
         w.set_time(*t);
         hist.push(json!({"t": t.to_string(), "ev": format!("{:?}", e)}));
@@ -119,11 +126,29 @@ fn run_manager_case(out: &mut Out, id0: u64, start0: u64, duration: u64, t0: u64
                                        out.count(if ok { "mgr:remove_ok" } else { "mgr:remove_err" });
                                        if after != before { out.monitor_fail("C20", "epoch manager: RemoveHook changed the epoch", replay.clone()); } }
         }
+        if ok && matches!(e, MEv::Create { .. }) { seen.push(after); }
+        // Epoch { id } must report every epoch of the history with the start time it had (first, last, and a few recent ones)
+        let n = seen.len();
+        let mut idx: Vec<usize> = vec![0, n - 1];
+        for back in 2..6 { if n >= back { idx.push(n - back); } }
+        idx.sort(); idx.dedup();
+        for i in idx {
+            out.monitor_evals += 1;
+            match w.epoch_by_id(seen[i].0) {
+                Outcome::Ok(got) => if got != seen[i] {
+                    out.monitor_fail("C20", &format!("epoch manager: Epoch{{id:{}}} reports start {} but that epoch started at {}", seen[i].0, got.1, seen[i].1), replay.clone()); },
+                _ => out.monitor_fail("C20", &format!("epoch manager: Epoch{{id:{}}} fails for an epoch of the history", seen[i].0), replay.clone()),
+            }
+        }
         terms.push(format!("({}, {})", t, term));
         let mut o = obs(&r, |_| vec![]);
         o.push(after.0.to_string());
         o.push(after.1.to_string());
         for l in &logs_after { o.push(l.calls.to_string()); o.push(l.last_id.to_string()); o.push(l.last_start.to_string()); }
+        // by-id queries compared with the model: the initial id, the id before the current one, the id after it
+        for q in [id0, after.0.wrapping_sub(1), after.0.wrapping_add(1)] {
+            o.extend(obs(&w.epoch_by_id(q), |v| vec![v.0.to_string(), v.1.to_string()]));
+        }
         obsv.extend(o);
     }
     let input = format!("(({}, {}, {}), {})", duration, id0, start0, coqlist(&terms));
